@@ -150,7 +150,7 @@ LEVELS = {
             "contracts used, each verified by the check of its home property: Circuit.add, connect (C07), startpoints, endpoints (C12), add_subcircuit for the call shape miter uses (C06: body == contract); assumed: networkx contracts; M1, M5 (graph-isomorphism invariance of consistency, not Lean-checked)"),
     "C19": ("proof",
             "Proof of the frame condition by an effect / may-alias analysis over the real ASTs (pyvc/frame.py): for each of the 64 public functions of tx, props, sat, the io writers, utils.lint/visualize and the read-only Circuit methods, every potentially mutating operation (Circuit mutators, networkx graph mutators, dict/attribute stores, in-place relabel) is shown to be applied only to objects allocated in that activation, on all branches and exceptional edges, and every returned circuit (also inside returned containers) is shown not to share its graph, node-attribute dicts or registry with an argument. Circuit.copy additionally has its contract (fresh graph and registry, equal views) proved on its body. Independence under later edits is exercised by the bounded edit battery.",
-            "assumed: effect summaries of networkx / dict operations and of the library's own mutators (pyvc/frame.py: copy() and relabel_nodes(copy=True) return fresh objects, subgraph() is a view sharing attribute dicts, BlackBox objects are immutable and shared by design); assume-guarantee between library functions (each callee's fresh-result summary is the obligation of its own task); values are abstracted, so a flagged site is 'undecided', not a violation"),
+            "assumed: effect summaries of networkx / dict operations and of the library's own mutators (pyvc/frame.py: copy() and relabel_nodes(copy=True) return fresh objects, subgraph() is a view sharing attribute dicts, BlackBox objects are immutable and shared by design); assume-guarantee between library functions (each callee's fresh-result summary is the obligation of its own task); values are abstracted, so a flagged site is never a counterexample: on unchanged source it is 'undecided', on changed source it is reported as a failed obligation (no-failing-input-found)"),
 }
 for _p, (_lvl, _txt, _note) in LEVELS.items():
     CHECKS[_p]["level"] = _lvl
@@ -158,6 +158,15 @@ for _p, (_lvl, _txt, _note) in LEVELS.items():
     CHECKS[_p]["level_note"] = _note
     CHECKS[_p]["lean"] = True
 CHECKS["C05"]["proof"] = True
+PROVED_PART = {
+    "C05": "proved part (tx.limit_fanout, tx.limit_fanin on their bodies, k symbolic): a returning call had k >= 2, only ValueError/KeyError raised, argument untouched, result new, original nodes keep type and output mark, added nodes are non-output gates, hence same primary inputs and outputs. Bound and preserved functions: bounded only",
+    "C06": "proved part: Circuit.add_subcircuit body == its splice contract for 0 / 1 connections (symbolic and literal instance names, strip_io True/False), Circuit.add_blackbox (no connections) body == contract, Circuit.fill_blackbox: splice postconditions (node set, copied types, edges, registry) on the body. The functional-substitution statement, strip_blackboxes and >= 2 connections: bounded only",
+    "C07": "proved part: `wired` (for an arbitrary set of pins the caller removed earlier) is preserved on every normal and exceptional exit by connect, disconnect, remove, set_output (str, arbitrary lists), add (default / uid=True, 9 fan-in/fan-out shapes), add_blackbox and add_subcircuit (no connection, one connection, arbitrary dict of str connections), fill_blackbox; rejected calls add no edge and raise ValueError/KeyError; body == contract for every construction method. Not proved: list-valued connection values, disjointness of the pins of distinct instances (assumed by the fill_blackbox lemma), and the induction over call sequences",
+    "C12": "proved part (body == contract): type, is_output, nodes, edges, io, inputs, outputs, fanin, fanout, startpoints / endpoints (with and without argument), transitive_fanin / transitive_fanout and is_cyclic relative to the assumed contracts of networkx.ancestors / descendants / is_directed_acyclic_graph. Depth functions, topo_sort, reconvergent_fanout_nodes, kcuts: bounded only",
+    "C13": "proved part: utils.clog2 (2^(r-1) < n <= 2^r; ValueError iff n < 1); logic.half_adder and logic.full_adder on their bodies: for every valuation consistent with the returned circuit the sum and carry equations hold, io lists, C07 wiring clauses (full_adder rests on the add_subcircuit contract with two connections, assumed for >= 2). adder, mux, popcount, bit helpers: bounded only",
+}
+for _p, _t in PROVED_PART.items():
+    CHECKS[_p]["level_note"] = CHECKS[_p]["level_note"] + " | " + _t
 for _p in ("C05", "C06", "C07", "C12", "C13"):
     CHECKS[_p]["level_text"] = ("Bounded stand-in of the contract, PLUS proved obligations for part of the functions the property depends on "
                                 "(reported in evidence.coverage.obligations/functions_under_contract; not claimed as a proof of the whole property): ") + CHECKS[_p]["level_text"]
